@@ -55,6 +55,17 @@ for v in $VARIANTS; do
   EVS="$EVS $ev"
 done
 
+# C06: enumerated stop windows W0..W3 and W4(k), k = 1..200, x 4 go kinds x 3 positions (2448 cases), search held in the window
+if [ "$PROP" = "C06" ]; then
+  for v in plain $([ "$TIER" = "thorough" ] && echo tsan); do
+    ev="build/ev/${PROP}_${v}_sweep.json"; rm -f "$ev"
+    "build/$v/vsim" --prop C06 --sweep --seed "$SEED" --runs 2448 --evidence "$ev"
+    r=$?
+    if [ $r -eq 1 ]; then rc=1; elif [ $r -ne 0 ] && [ $rc -eq 0 ]; then rc=2; fi
+    EVS="$EVS $ev"
+  done
+fi
+
 # valgrind over a few replayed seeds of the plain binary (uninitialised values; C10 thorough only)
 if [ "$PROP" = "C10" ] && [ "$TIER" = "thorough" ] && [ $rc -eq 0 ]; then
   ./build.sh plain > build/ev/build_plain.log 2>&1 || { echo "INFRA: plain build failed"; exit 2; }
